@@ -207,13 +207,13 @@ theorem external_refutes_spec (t : ExternalTask) (S : Specification) (hspec : t.
               (∀ a ∈ S, lFwdPrem a = true → sat J a.formula ρ) ∧
               ¬ (Stable t.program t.userGuide.inputs
                 (restrictTo (ext t.program.preds t.userGuide.inputs)
-                  (renamedInterp (t.specPrivate.filter (· ∈ t.progPrivate)) J.pred)) J.fc ∧
-                OutputsEmpty t t.program (renamedInterp (t.specPrivate.filter (· ∈ t.progPrivate)) J.pred))) ∨
+                  (renamedInterp t.clashMap J.pred)) J.fc ∧
+                OutputsEmpty t t.program (renamedInterp t.clashMap J.pred))) ∨
            ((t.direction = .universal ∨ t.direction = .backward) ∧
               (Stable t.program t.userGuide.inputs
                 (restrictTo (ext t.program.preds t.userGuide.inputs)
-                  (renamedInterp (t.specPrivate.filter (· ∈ t.progPrivate)) J.pred)) J.fc ∧
-                OutputsEmpty t t.program (renamedInterp (t.specPrivate.filter (· ∈ t.progPrivate)) J.pred)) ∧
+                  (renamedInterp t.clashMap J.pred)) J.fc ∧
+                OutputsEmpty t t.program (renamedInterp t.clashMap J.pred)) ∧
               ∃ a ∈ S, lBwdConc a = true ∧ ¬ sat J a.formula ρ)))) := by
   obtain ⟨hpre, ΓR, hR, hps⟩ := externalProblems_spec t S hspec hph hpo fuel ps h
   refine ⟨ΓR, hR, fun hnc J ρ => ?_⟩
@@ -225,10 +225,10 @@ theorem external_refutes_spec (t : ExternalTask) (S : Specification) (hspec : t.
   have huR := rightSide_univ t ΓR
   have hStR : (∀ a ∈ rightSide t ΓR, sat J a.formula ρ) ↔
       Stable t.program t.userGuide.inputs (restrictTo (ext t.program.preds t.userGuide.inputs)
-        (renamedInterp (t.specPrivate.filter (· ∈ t.progPrivate)) J.pred)) J.fc ∧
-      OutputsEmpty t t.program (renamedInterp (t.specPrivate.filter (· ∈ t.progPrivate)) J.pred) := by
+        (renamedInterp t.clashMap J.pred)) J.fc ∧
+      OutputsEmpty t t.program (renamedInterp t.clashMap J.pred) := by
     rw [← completion_stable t.program _ htR' hpR hinsR ΓR0 hcR _ J.fc ρ,
-      ← hsemR ⟨renamedInterp (t.specPrivate.filter (· ∈ t.progPrivate)) J.pred, J.fc⟩ ρ]
+      ← hsemR ⟨renamedInterp t.clashMap J.pred, J.fc⟩ ρ]
     unfold rightSide
     simp only [List.mem_map, forall_exists_index, and_imp, forall_apply_eq_imp_iff₂]
     constructor
@@ -300,8 +300,8 @@ theorem external_refutes_spec (t : ExternalTask) (S : Specification) (hspec : t.
       (∀ a ∈ rightSide t ΓR, a.role = .assumption → sat J a.formula ρ) ∧
       (∀ a ∈ S, lFwdPrem a = true → sat J a.formula ρ) ∧
       ¬ (Stable t.program t.userGuide.inputs (restrictTo (ext t.program.preds t.userGuide.inputs)
-        (renamedInterp (t.specPrivate.filter (· ∈ t.progPrivate)) J.pred)) J.fc ∧
-        OutputsEmpty t t.program (renamedInterp (t.specPrivate.filter (· ∈ t.progPrivate)) J.pred)) := by
+        (renamedInterp t.clashMap J.pred)) J.fc ∧
+        OutputsEmpty t t.program (renamedInterp t.clashMap J.pred)) := by
     rw [hF]
     simp only [List.forall_mem_cons, List.not_mem_nil, false_imp_iff, implies_true, and_true, true_and]
     rw [hstable]
@@ -329,8 +329,8 @@ theorem external_refutes_spec (t : ExternalTask) (S : Specification) (hspec : t.
       (∀ a ∈ S, lStable a = true → sat J a.formula ρ) ∧
       (∀ a ∈ rightSide t ΓR, a.role = .assumption → sat J a.formula ρ) ∧
       (Stable t.program t.userGuide.inputs (restrictTo (ext t.program.preds t.userGuide.inputs)
-        (renamedInterp (t.specPrivate.filter (· ∈ t.progPrivate)) J.pred)) J.fc ∧
-        OutputsEmpty t t.program (renamedInterp (t.specPrivate.filter (· ∈ t.progPrivate)) J.pred)) ∧
+        (renamedInterp t.clashMap J.pred)) J.fc ∧
+        OutputsEmpty t t.program (renamedInterp t.clashMap J.pred)) ∧
       ∃ a ∈ S, lBwdConc a = true ∧ ¬ sat J a.formula ρ := by
     rw [hB]
     simp only [List.forall_mem_cons, List.not_mem_nil, false_imp_iff, implies_true, and_true, true_and]
